@@ -242,6 +242,9 @@ def replay_driver(exe, arg, timeout=300):
             pass
     if r.returncode not in (0, 1) or ("Sanitizer" in err or "runtime error" in err):
         how = "signal %d" % -r.returncode if r.returncode < 0 else "exit %d" % r.returncode
+        m = re.search(r"^replay: .*killed by signal (\d+).*$", err, re.M)      # the driver replays in a forked child and reports how it died
+        if m:
+            how = "signal %s" % m.group(1); err = (err[:m.start()] + err[m.end():]).strip()
         sigs.append(sanitizer_signature(err, how))
     return sigs, out, err
 
